@@ -4,7 +4,7 @@ triggers: operator, identifiers, constants).  A validation that disappears from 
 preamble byte then reaches a shift amount, an allocation size or an index unchecked."""
 import json
 import os
-from astu import C, ctxt, gt_pair, eq_const, reach, reach_txt, ctext, strip, walk, txt, short, functions_by, always_throws, stmts_of
+from astu import reach_tagged, C, ctxt, gt_pair, eq_const, reach, reach_txt, ctext, strip, walk, txt, short, functions_by, always_throws, stmts_of
 from vlib.core import ob, VERIF
 import triggers
 
@@ -78,22 +78,29 @@ def inlined_guards(fn, by_pat, env=None, depth=0):
                 if hit[0]:
                     out.append(("call", n["cname"]))
         if n.get("k") == "If" and always_throws(n.get("t")) and n.get("e") is None:
-            out.append((n["c"], env))
+            # the branch conditions the guard sits under belong to it: `if (a && b) throw` == `if (a) { if (b) throw; .. }`
+            ctx = [l for l, o in reach_tagged(fn["body"], n) if o in ("if", "else")]
+            out.append((n["c"], env, ctx))
     walk(fn["body"], v)
     return out
 
 
-def guard_item(c, env):
+def guard_item(c, env, ctx=()):
     c = strip(c)
     t = txt(c)
     if "good()" in t or "fail()" in t:
         return None
+    if ctx:
+        ids, consts = [], []
+        for x in list(ctx) + [c]:
+            triggers.idc(x, env, ids, consts)
+        return "guard:complex|%s|%s" % (",".join(sorted(set(str(i) for i in ids if i))), ",".join(str(x) for x in sorted(set(consts), key=lambda x: (str(type(x)), x))))
     if c.get("k") == "Bin" and c.get("op") in triggers.FLIP:
         op, ids, consts, text = triggers.parts(c, env)
         return "guard:%s|%s|%s" % (op, ",".join(ids), ",".join(str(x) for x in consts))
     ids, consts = [], []
     triggers.idc(c, env, ids, consts)
-    return "guard:complex|%s|%s" % (",".join(sorted(str(i) for i in ids if i)), ",".join(str(x) for x in sorted(consts, key=lambda x: (str(type(x)), x))))
+    return "guard:complex|%s|%s" % (",".join(sorted(set(str(i) for i in ids if i))), ",".join(str(x) for x in sorted(set(consts), key=lambda x: (str(type(x)), x))))
 
 
 def inventory(facts):
@@ -115,7 +122,7 @@ def inventory(facts):
             if g[0] == "call":
                 items.append("call:%s" % g[1])
             else:
-                it = guard_item(g[0], g[1])
+                it = guard_item(g[0], g[1], g[2] if len(g) > 2 else ())
                 if it:
                     items.append(it)
         if items:
